@@ -964,6 +964,14 @@ def model_specs(draw, **kw):
       for t in inner:
         if draw(st.integers(0, 3)) == 0:
           extra.append(t)
+    if cfg.get('unused_results'):
+      # a result of a multi-output operator that nothing reads and the function
+      # does not return (tf.split / unstack with unused parts stay in the graph)
+      for n in g.nodes:
+        if len(n['out']) >= 2:
+          dead = [t for t in n['out'] if t in sinks]
+          if dead and len(sinks) + len(extra) > 1 and draw(st.integers(0, 2)) == 0:
+            sinks.remove(draw(st.sampled_from(dead)))
     outs = sinks + extra
     if not outs:  # no node was applicable
       outs = [g.inputs[0]]
